@@ -26,8 +26,8 @@ EXTENDS Integers, Sequences, FiniteSets, TLC, SequencesExt
 
 CONSTANTS DevChoices   \* set of flag sets; Init picks one (the instance family is given by the Init of MC_Select / SelTrace)
 
-VARIABLES case, dev, st, pc
-vars == <<case, dev, st, pc>>
+VARIABLES case, dev, steps, st, pc     \* steps = Steps(case), kept in the state so that it is computed once
+vars == <<case, dev, steps, st, pc>>
 
 (* ------------------------------------------------------------------ *)
 (* abstract input                                                      *)
@@ -170,10 +170,14 @@ Steps(c) ==
   \o [i \in 1..Len(c.start) |-> [a |-> "FindStart", i |-> i]]
   \o [i \in 1..Len(c.lig) |-> [a |-> "AnnotateSpec", i |-> i]]
   \o (IF c.lig = <<>> THEN <<>> ELSE [i \in 1..NM(c) |-> [a |-> "Connect", i |-> i - 1]])
-  \o << [a |-> "Engine", i |-> 0], [a |-> "SamplePers", i |-> 0], [a |-> "SetRestraints", i |-> 0],
-        [a |-> "Build", i |-> 0], [a |-> "SplitLigands", i |-> 0] >>
-Done == pc > Len(Steps(case)) \/ st.err # ""
-Cur == Steps(case)[pc]
+  \* steps of BuildSystem.run_system that have something to do
+  \o (IF c.lig = <<>> THEN <<>> ELSE << [a |-> "Engine", i |-> 0] >>)
+  \o (IF \E i \in 1..Len(c.bld) : c.bld[i].k = "pers" THEN << [a |-> "SamplePers", i |-> 0] >> ELSE <<>>)
+  \o (IF \E i \in 1..Len(c.bld) : c.bld[i].k = "dist" THEN << [a |-> "SetRestraints", i |-> 0] >> ELSE <<>>)
+  \o << [a |-> "Build", i |-> 0] >>
+  \o (IF c.lig = <<>> THEN <<>> ELSE << [a |-> "SplitLigands", i |-> 0] >>)
+Done == pc > Len(steps) \/ st.err # ""
+Cur == steps[pc]
 
 (* ---- MetaMolecule.split_residue(split_strings) of molecule m ---- *)
 \* all (resname, new name, atom name) triples in the order _interpret_residue_mapping visits them; a later one overwrites
@@ -304,10 +308,10 @@ Apply(s, c, stp) ==
     [] stp.a = "Build"         -> Build(s, c)
     [] stp.a = "SplitLigands"  -> SplitLigands(s, c)
 
-InitCase(c) == /\ case = c /\ dev \in DevChoices
+InitCase(c) == /\ case = c /\ dev \in DevChoices /\ steps = Steps(c)
                /\ st = Init0(c) /\ pc = 1
 Step(name) == /\ ~Done /\ Cur.a = name
-              /\ st' = Apply(st, case, Cur) /\ pc' = pc + 1 /\ UNCHANGED <<case, dev>>
+              /\ st' = Apply(st, case, Cur) /\ pc' = pc + 1 /\ UNCHANGED <<case, dev, steps>>
 ASplitMolecule == Step("SplitMolecule")
 AParseLine     == Step("ParseLine")
 AFinalize      == Step("Finalize")
@@ -325,32 +329,34 @@ Next == \/ ASplitMolecule \/ AParseLine \/ AFinalize \/ ASamplePers \/ ASetRestr
 (* ------------------------------------------------------------------ *)
 (* I |= P                                                              *)
 (* ------------------------------------------------------------------ *)
-Passed(name) == \E j \in 1..(pc - 1) : j <= Len(Steps(case)) /\ Steps(case)[j].a = name
-AllPassed(name) == \A j \in 1..Len(Steps(case)) : Steps(case)[j].a = name => j < pc
-SplitDone == case.split = <<>> \/ AllPassed("SplitMolecule")
+Finished == pc > Len(steps)
 
-\* a case whose -lig option cannot be honoured, or that contains a contradictory name#index, may only be rejected or
-\* treated as selecting nothing; every other case of the family must run without an error
+\* a -lig option that cannot be honoured must be rejected; one that is contradictory (name#index naming no molecule)
+\* or whose ligand has neither name nor index may be rejected; every other case of the family must run without an error
 MustReject(c) == LigInfeasible(c)
-MayReject(c) == \E i \in 1..Len(c.lig) : Contradictory(c, c.lig[i].h) \/ Contradictory(c, c.lig[i].l)
-ErrOK == IF MustReject(case) THEN (AllPassed("AnnotateSpec") => st.err # "")
-         ELSE IF MayReject(case) THEN TRUE ELSE st.err = ""
+MayReject(c) == \E i \in 1..Len(c.lig) : \/ Contradictory(c, c.lig[i].h) \/ Contradictory(c, c.lig[i].l)
+                                        \/ ~(c.lig[i].l.hasMol \/ c.lig[i].l.hasIdx)
+ErrOK == Done => IF MustReject(case) THEN st.err # ""
+                 ELSE IF MayReject(case) THEN TRUE ELSE st.err = ""
 
-\* the molecule list and the residues of every molecule are those of the (split) topology at every later step:
-\* build-file parsing, start selection, annotation and ligand hand-back never add, drop or rename a residue
-MolListUnchanged == (SplitDone /\ st.err = "") => NodesOK(case, st)
+\* the molecule list and the residues of every molecule are those of the (split) topology when everything is over ...
+MolListUnchanged == (Finished /\ st.err = "") => NodesOK(case, st)
+\* ... and no step after the split changes a residue: build-file parsing, start selection, annotation and ligand
+\* hand-back never add, drop or rename one
+NodesStable == [][ (~Done /\ Cur.a # "SplitMolecule") => st'.nodes = st.nodes ]_vars
 Correct ==
-  /\ ErrOK
-  /\ (Passed("Finalize") /\ st.err = "") => (TagsOK(case, {"geom"}, st.geom) /\ TagsOK(case, {"rw"}, st.rw))
-  /\ (Passed("SetRestraints") /\ st.err = "") => MolTagsOK(case, st.dtags)
-  /\ (AllPassed("FindStart") /\ Passed("Finalize") /\ st.err = "") => StartOK(case, st.startOf)
-  /\ (AllPassed("Connect") /\ Passed("Finalize") /\ case.lig # <<>> /\ ~Passed("SplitLigands") /\ st.err = "") => LigValid(case, st.added)
-  /\ (Passed("Build") /\ ~Passed("SplitLigands") /\ st.err = "") =>
-         \A i \in 1..NM(case) : \A j \in 1..Len(st.added[i]) : st.added[i][j].pos # 0
+  (Finished /\ st.err = "") =>
+     /\ TagsOK(case, {"geom"}, st.geom)
+     /\ TagsOK(case, {"rw"}, st.rw)
+     /\ MolTagsOK(case, st.dtags)
+     /\ StartOK(case, st.startOf)
+     /\ LigValid(case, st.was)
+     /\ \A i \in 1..NM(case) : /\ st.added[i] = <<>>
+                               /\ \A j \in 1..Len(st.was[i]) : st.was[i][j].pos # 0 /\ Buildable(case, st.was[i][j])
+     /\ HandedOK(st.was, st.handed, NM(case))
 \* split_ligands removes exactly the ligated nodes and hands every position to the ligand's own molecule and residue
 HandBack == [][ (~Done /\ Cur.a = "SplitLigands") =>
                  /\ \A i \in 1..NM(case) : st'.added[i] = <<>>
-                 /\ st'.nodes = st.nodes
                  /\ HandedOK(st.added, st'.handed, NM(case)) ]_vars
 \* annotation only adds: nothing that exists is changed
 AnnotateOnlyAdds == [][ (~Done /\ Cur.a \in {"AnnotateSpec", "Connect"}) =>
